@@ -43,14 +43,14 @@ type sameNameDiff struct {
 }
 
 // samePathDifferentBytes: the property's first predicate on a pair of builds
-func samePathDifferentBytes(p *pair) []sameNameDiff {
+func samePathDifferentBytes(p *pair, oa, ob *L.Opt) []sameNameDiff {
 	var out []sameNameDiff
 	for _, k := range p.a.Paths() {
 		vb, ok := p.b.Outputs[k]
 		if !ok || bytes.Equal(vb, p.a.Outputs[k]) {
 			continue
 		}
-		out = append(out, sameNameDiff{k, L.ClassifyDiff(k, p.a.Outputs[k], vb, p.a.Paths(), p.b.Paths())})
+		out = append(out, sameNameDiff{k, L.ClassifyDiff(k, p.a.Outputs[k], vb, oa, ob)})
 	}
 	return out
 }
@@ -76,13 +76,13 @@ func checkPair(st *Stats, edit string, pa, pb *L.Project, hashed bool) (bool, bo
 		return false, false
 	}
 	if hashed {
-		for _, d := range samePathDifferentBytes(p) {
+		for _, d := range samePathDifferentBytes(p, &pa.Opt, &pb.Opt) {
 			report := func() []sameNameDiff {
 				q, err := buildPair(pa, pb) // re-run before reporting
 				if err != nil {
 					return nil
 				}
-				return samePathDifferentBytes(q)
+				return samePathDifferentBytes(q, &pa.Opt, &pb.Opt)
 			}
 			again := report()
 			found := false
@@ -96,7 +96,7 @@ func checkPair(st *Stats, edit string, pa, pb *L.Project, hashed bool) (bool, bo
 			}
 			// the known classes are reported once each (the first is the fixed corpus replay),
 			// so that they cannot crowd a different violation out of the failure list
-			if d.Class != "other" {
+			if !strings.HasPrefix(d.Class, "other") {
 				if reportedClass[d.Class] {
 					st.Note("known-class-again:"+d.Class, edit+pa.JSON(), false)
 					continue
@@ -459,8 +459,8 @@ func gluePairs(r *Rng, n int, st *Stats) {
 			if strings.Contains(e.name, "comment-only") {
 				// a comment edit is visible only through the source map (sourcesContent, or with
 				// sourcesContent excluded only through the mappings): make sure there is one
-				if pa.Opt.Sourcemap == "" || pa.Opt.Sourcemap == "inline" {
-					pa.Opt.Sourcemap = []string{"linked", "external", "both"}[r.Intn(3)]
+				if pa.Opt.Sourcemap == "" {
+					pa.Opt.Sourcemap = []string{"linked", "external", "both", "inline", "inline"}[r.Intn(5)]
 				}
 				pa.Opt.NoSrcContent = r.Bool()
 				pa.Opt.MinifyW = false
